@@ -59,3 +59,16 @@ size_t sim_alloc_peak_bytes(void) { return 0; } void sim_alloc_reset_peak(void) 
 void *sim_alloc_tracked(size_t n) { return __real_calloc(1, n ? n : 1); } int sim_alloc_is_live(const void *p) { (void)p; return 0; } size_t sim_alloc_size_of(const void *p) { (void)p; return 0; }
 void sim_alloc_foreach_live(void (*cb)(void *, size_t, int, void *), void *k) { (void)cb; (void)k; } uintptr_t sim_alloc_site_of(const void *p) { (void)p; return 0; }
 void sim_alloc_free_all_live(void) {}
+
+/* libc functions with hidden static state (they are not reentrant): a call is modelled as a write to that state, and the
+ * object they return a pointer to is marked written, so that two unordered calls - or one call and another thread's use of
+ * the result - are reported as what they are: a data race on library state. */
+char libc_static_tm[1], libc_static_strtok[1], libc_static_rand[1], libc_static_timestr[1];
+struct tm *__real_gmtime(const time_t *); struct tm *__real_localtime(const time_t *);
+char *__real_asctime(const struct tm *); char *__real_ctime(const time_t *); char *__real_strtok(char *, const char *); int __real_rand(void);
+struct tm *__wrap_gmtime(const time_t *t) { tsl_range(t, sizeof *t, 0); tsl_range(libc_static_tm, 1, 1); struct tm *r = __real_gmtime(t); if(r) tsl_range(r, sizeof *r, 1); tsl_sched_point(); return r; }
+struct tm *__wrap_localtime(const time_t *t) { tsl_range(t, sizeof *t, 0); tsl_range(libc_static_tm, 1, 1); struct tm *r = __real_localtime(t); if(r) tsl_range(r, sizeof *r, 1); tsl_sched_point(); return r; }
+char *__wrap_asctime(const struct tm *t) { tsl_range(t, sizeof *t, 0); tsl_range(libc_static_timestr, 1, 1); char *r = __real_asctime(t); tsl_sched_point(); return r; }
+char *__wrap_ctime(const time_t *t) { tsl_range(t, sizeof *t, 0); tsl_range(libc_static_timestr, 1, 1); tsl_range(libc_static_tm, 1, 1); char *r = __real_ctime(t); tsl_sched_point(); return r; }
+char *__wrap_strtok(char *s, const char *d) { tsl_range(libc_static_strtok, 1, 1); char *r = __real_strtok(s, d); tsl_sched_point(); return r; }
+int __wrap_rand(void) { tsl_range(libc_static_rand, 1, 1); int r = __real_rand(); tsl_sched_point(); return r; }
